@@ -106,12 +106,14 @@ theorem deps_first_fails_on_a_cycle : ¬DepsFirst := by
 
 example : forEachCalls (mk [ca, cb]) ["a"] [] = .ok ["b", "a"] ["b", "a"] := by decide
 
-/-! ## `Services.GetProfiles` before its `fix:` commit (round 5)
+/-! ## `Services.GetProfiles` is a set, not a list (round 5)
 
-The profiles were collected in a Go map and listed by ranging over it: the returned slice was in map order, so two
-calls on the same `Services` value returned different slices (real replay `corpus/C15/getprofiles-order.json`, oracle
-key `nondeterministic:types.Services.GetProfiles:order`, then failing, now passing).  In the model the pre-fix function
-lists the profiles in range order; the witness shows that this is not a function of the map. -/
+The profiles are collected in a Go map and listed by ranging over it: the returned slice is in map order, so two calls
+on the same `Services` value return the same profiles in different orders (observed on the real code by `c15each`:
+`[p q r s t]` then `[q r s t p]`; counted in the evidence as `getprofiles-order-varies`).  This is a *reviewed* order-leak
+site of property C02 (`Spec/Determinism.lean`: public helper, reached by no load and no rendering, callers get an
+unordered list), not one of the operations of C15; the model therefore compares the sorted view `getProfiles`
+(`Props/C15.lean getProfiles_exact`, `getProfiles_perm`).  The witness shows that the raw list is not a function of the map. -/
 
 def GetProfilesPermInvariant : Prop :=
   ∀ (svcs svcs' : AL Svc), (keys svcs).Nodup → svcs.Perm svcs' → getProfilesPre svcs = getProfilesPre svcs'
@@ -119,7 +121,7 @@ def GetProfilesPermInvariant : Prop :=
 def pa : String × Svc := ("a", { svc "a" [] with profiles := ["p", "q"] })
 def pb : String × Svc := ("b", { svc "b" [] with profiles := ["r", "p"] })
 
-theorem getProfiles_not_perm_invariant_before_fix : ¬GetProfilesPermInvariant := by
+theorem getProfiles_raw_order_dependent : ¬GetProfilesPermInvariant := by
   intro h
   have := h [pa, pb] [pb, pa] (by decide) (List.Perm.swap _ _ _)
   revert this
